@@ -789,7 +789,24 @@ def check_late_binding(ctx, rule='C08-no-late-binding', clause='g'):
                         sites = [parents.get(id(x))]
                         uses = [x]
                     fate = set()
+                    # a lambda bound to a local name: what happens to that name in the loop body
+                    if isinstance(x, ast.Lambda) and isinstance(sites[0], ast.Assign) and len(sites[0].targets) == 1 and isinstance(sites[0].targets[0], ast.Name):
+                        lname = sites[0].targets[0].id
+                        uses = [y for s2 in lp.body for y in ast.walk(s2) if isinstance(y, ast.Name) and y.id == lname and isinstance(y.ctx, ast.Load)]
+                        sites = [parents.get(id(y)) for y in uses]
                     for y, par in zip(uses, sites):
+                        if isinstance(par, ast.Call) and par.func is not y and isinstance(par.func, ast.Name) and repo.module_funcs.get((fi.module, par.func.id)) is not None and y in par.args:
+                            # handed to a function of the package: does it keep its parameter?
+                            g = repo.module_funcs[(fi.module, par.func.id)]
+                            gparams = [a_.arg for a_ in g.node.args.args]
+                            idx = par.args.index(y)
+                            if idx < len(gparams):
+                                pn = gparams[idx]
+                                captured = any(isinstance(z, (ast.Lambda, ast.FunctionDef)) and z is not g.node and any(isinstance(q, ast.Name) and q.id == pn for b_ in (z.body if isinstance(z.body, list) else [z.body]) for q in ast.walk(b_)) for z in ast.walk(g.node))
+                                stored = any(isinstance(z, ast.Call) and ((isinstance(z.func, ast.Name) and z.func.id == 'setattr') or (isinstance(z.func, ast.Attribute) and z.func.attr in ('append', 'add', 'insert'))) and any(isinstance(q, ast.Name) and q.id == pn for q in z.args) for z in ast.walk(g.node))
+                                if captured or stored:
+                                    fate.add('kept')
+                                    continue
                         if isinstance(par, ast.Call) and par.func is y:
                             fate.add('called')
                         elif isinstance(par, ast.Call) and isinstance(par.func, ast.Attribute) and par.func.attr in ('append', 'insert', 'add', 'extend', 'setdefault', 'update', 'appendleft'):
@@ -816,6 +833,43 @@ def check_late_binding(ctx, rule='C08-no-late-binding', clause='g'):
     ctx.unit('closures_in_loops', n)
     if not any(o.rule == rule for o in ctx.obs):
         ctx.holds(rule, ('bisturi/', '*'), 'closures defined inside loops: %d' % n, 'none reads a loop variable late', 0, clause=clause)
+
+
+def check_no_state_on_the_field(ctx):
+    """Round 6.  (k) the unpack methods of the structural fields keep nothing on the field object:
+    it is shared by every packet of the class, so a counter / list / flag stored there makes the
+    result of a parse depend on earlier parses (a failed parse that does not undo its write, a
+    nested parse of the same class that replaces the list being filled)"""
+    repo = ctx.repo
+    from ..effects import collect_writes
+    from ..model import unpack_strategies
+    from .c13 import R5_EXCEPTIONS, exception_still_justified
+    rule = 'C08-no-state-on-the-field'
+    n = 0
+    seen = set()
+    for ci, fi, s_ in unpack_strategies(repo):
+        if ci.name not in ('Sequence', 'Optional', 'Ref') or fi.id in seen:
+            continue
+        seen.add(fi.id)
+        try:
+            writes, w, paths, roots = collect_writes(repo, fi, ctx.max_paths)
+        except Undecided as e:
+            ctx.undecided(rule, fi, fi.qual, str(e), fi.node.lineno, clause='k')
+            continue
+        bad = []
+        for wr in writes:
+            if wr['root'] == 'shared' and wr['detail'] == 'self':
+                exc = R5_EXCEPTIONS.get((fi.cls.name if fi.cls is not None else '', wr['text']))
+                if exc is not None and exception_still_justified(repo, fi, wr):
+                    continue
+                bad.append(wr)
+        n += 1
+        if bad:
+            for wr in bad[:3]:
+                ctx.violation(rule, fi, '%s: %s' % (wr['kind'], wr['text'][:100]), 'state kept on the field object while parsing: it is the same object for every packet of the class (and for a nested parse of the same class), so what a parse yields depends on the parses before it', wr['line'], clause='k', witness=True)
+        else:
+            ctx.holds(rule, fi, '%s writes nothing on the field object' % fi.qual, 'each parse starts from the declaration only', fi.node.lineno, clause='k')
+    ctx.unit('stateless_unpackers', n)
 
 
 def check_evaluation_context(ctx):
@@ -866,5 +920,6 @@ def check(ctx):
     check_modifier_plumbing(ctx)
     check_late_binding(ctx)
     check_evaluation_context(ctx)
+    check_no_state_on_the_field(ctx)
     ctx.floor('obligations', len(ctx.obs), 20)
     ctx.trust(*ASSUMPTIONS)
